@@ -9,6 +9,7 @@ bound to <Out>_<declared-or-rank-order ranks>, with those rank ids, equal to the
 original coordinates; (c) every input variable still holds a tensor with the same rank ids and
 the same data as before the run."""
 import specgen
+import specgen_wide
 import runlib
 import execlib
 import popgen
@@ -24,8 +25,16 @@ def run(ctx):
     pops += list(popgen.shape(rng, 90 if q else 800))
     pops += list(popgen.occupancy(rng, 120 if q else 1000))
     pops += list(popgen.cascade(rng, 50 if q else 400))
+    # rank names are part of the input space (level / intermediate / flattened names are made by concatenation): half of
+    # every population is renamed by an injective map into a wide pool (I, O, KI, K1, M20, ROW, ...)
+    pops = list(specgen_wide.renamed(rng, pops, p=0.5))
+    # per-level leaders, 1-3 occupancy levels, flatten() of ranks of any tensor incl. the output (contiguous / swizzled /
+    # bottom shape levels), two flattens, output-concordant and default loop orders, 4 ranks (tools/specgen_wide.py)
+    pops += list(specgen_wide.wide_items(rng, 250 if q else 2000, flatten_p=0.6, occ_flat_p=0.45, concordant_p=0.4))
+    # two partitioned Einsums over the same rank names in one specification (the second may read the first one's result)
+    pops += list(specgen_wide.wide_pairs(rng, 60 if q else 500))
     cases = []
-    stats = {"by_kind": {}, "rejected": 0}
+    stats = {"by_kind": {}, "rejected": 0, "naming": {}, "features": {}}
     for it in pops:
         try:
             spec = runlib.Spec(it["yaml"])
@@ -36,7 +45,13 @@ def run(ctx):
         if any(specgen.take_selected_lacks_rank(s) for s in spec.structs):
             continue
         stats["by_kind"][it["kind"]] = stats["by_kind"].get(it["kind"], 0) + 1
-        ext = runlib.default_extents(spec, rng, 1, 6)
+        nm = it.get("naming") or (it.get("features") or {}).get("naming") or "identity"
+        stats["naming"][nm] = stats["naming"].get(nm, 0) + 1
+        for k, v in (it.get("features") or {}).items():
+            if k != "naming" and v:
+                stats["features"][k] = stats["features"].get(k, 0) + 1
+        nr = len(set(r for rs in spec.decl.values() for r in rs))
+        ext = runlib.default_extents(spec, rng, 1, 6 if nr <= 3 else (4 if nr == 4 else 3))
         data, scal = runlib.gen_inputs(spec, ext, rng, density=rng.choice([1.0, 0.6]))
         cases.append(execlib.Case(spec, text, ext, data, scal, extra_ints=it["syms"], meta={"kind": it["kind"]}))
     execlib.evaluate(cases, "c07")
@@ -63,7 +78,7 @@ def run(ctx):
     ctx.coverage.update({
         "programs": distinct, "executions": len(cases), "disagreements_checked": bad, "evaluations": len(cases), "distinct_nontrivial": distinct,
         "population": stats, "tensor_named_variables_checked": names_checked,
-        "rule": "populations of C01 (plain), C02 (shape), C03 (occupancy/flatten), C05 (cascades); one execution each; every <Name>_<Ranks> variable, every input and every result checked on the final state",
+        "rule": "populations of C01 (plain), C02 (shape), C03 (occupancy/flatten, base and wide), C05 (cascades), half of them with ranks renamed into a wide pool of names; one execution each; every <Name>_<Ranks> variable, every input and every result checked on the final state",
         "samples": [{"yaml": cases[0].spec.yaml, "result": cases[0].raw, "names": [n for n in cases[0].names if runlib.NAME_RE.match(n)]}],
         "trusted_base": ["Coq 8.16.1 kernel + VM", "Model/Rt.v + Model/Interp.v + Model/Harness.v check_name/check_input/check_out", "tools/py2coq.py", "Model/Einsum.v"],
     })
